@@ -2549,12 +2549,11 @@ again:
 	}
 	/* otherwise sort the array, just in case */
 	echs_instant_sort(strm->cch, strm->ncch);
-	if (strm->zon) {
-		/* wall-clock times in the gap of a zone transition are
-		 * corrected onto instants we have handed out already,
-		 * keep the stream strictly increasing */
-		size_t j = 0U;
-
+	/* wall-clock times in the gap of a zone transition are corrected
+	 * onto instants we have handed out already, business day shifts
+	 * move dates of different months or years onto the same day,
+	 * keep the stream strictly increasing */
+	with (size_t j = 0U) {
 		for (size_t i = 0U; i < strm->ncch; i++) {
 			if (echs_instant_lt_p(strm->lst, strm->cch[i])) {
 				strm->cch[j + GRP_CCH_OFF] =
@@ -2563,7 +2562,7 @@ again:
 			}
 		}
 		if (UNLIKELY(!(strm->ncch = j))) {
-			/* all of them in the gap */
+			/* all of them handed out already */
 			goto again;
 		}
 	}
